@@ -26,7 +26,7 @@ __END_DECLS
 
 /* Checks whether c is a 7-bit unsigned char value that
  * fits into the ASCII character set. */
-#define isascii(c) (((unsigned char)(c))<=0x7f)
+#define isascii(c) (((unsigned)(c))<=0x7f)
 #define toascii(c) (((unsigned char)(c))&0x7f)
 
 #endif /* CTYPE_H_ */
